@@ -30,6 +30,11 @@ func cfgFor(h *vh.H, profile string) j5sgen.Config {
 func genSkel(h *vh.H, i int) string {
 	g := j5sgen.New(h.Rng, cfgFor(h, "skel"))
 	b := g.Bundle()
+	if h.Chance(1, 6) {
+		// a package import and a file-path import that share the short name, the type in both packages
+		g.AddFileImportClash(b)
+		h.Count("skel.gen.file-import-clash")
+	}
 	pkg := b.Pkgs[len(b.Pkgs)-1]
 	if h.Chance(1, 4) {
 		pkg = vh.Pick(h, b.Pkgs)
